@@ -300,7 +300,7 @@ fn judge_cmplx(st: &mut Stats, rng: &mut Rng) {
 }
 
 pub fn run(ctx: &Ctx) -> Report {
-    let units = ctx.vol(2000, 60_000);
+    let units = ctx.vol(8000, 400_000);
     let stats = par_run(ctx, TAG, units, |u, rng, st| {
         let class = u % 5;
         for _ in 0..6 {
